@@ -203,6 +203,7 @@ class Sim:
         self.ntok = 0
         self.preempts = 0
         self.proc_tag = None
+        self.tap = None
         self.spin_limit = self.knobs.get('spin_limit', 60000)
         self.fired = False
         self.dp_triggers = []
